@@ -65,6 +65,11 @@ CHECKS = {
          "Sampling of the case table; ownership and pre-signed patterns are what the recorder constructed.",
          "TLA+ postcondition evaluated by TLC on recorded calls of wallet.SignTransaction",
          "DESIGN.md 5 C13, 9"),
+ "C20": ("filesave", "fault_enumeration",
+         "The real save of a wallet file (wallet.Save) and of a key-value storage file (kvstorage flush), both through file.SaveBinary, runs once in a child process under strace; the recorded file-system operations (open/truncate, writes with their lengths, rename, unlink, fsync) are the PROGRAM that FileSave.tla interprets on an abstract directory; TLC explores every crash point of that program (after each operation, inside each write) and checks RecoverOldOrNew. Each crash point is then materialised (the operations replayed on a copy of the pre-save directory, the last write cut at 1 byte / half / all but one byte) and loaded by the real start-up code (wallet.NewService, kvstorage.NewManager); TLC checks every image record: the node starts and finds the old or the new content, as the model predicts.",
+         "Process crash, not power failure: bytes handed to write() are in the file, renames are atomic and durable; one save per file kind (all save paths go through file.SaveBinary).",
+         "strace-recorded operation sequence interpreted by a TLA+ spec; TLC over all crash points; every crash image loaded by the real code",
+         "DESIGN.md 4.3, 5 C20, 9"),
  "C22": ("wire", "model_checking",
          "Framing.tla's Step (append a read, extract every complete frame, invalid length disconnects) is model-checked for every split of every small stream into reads (MCFraming: in-order delivery, nothing lost or duplicated, bad length disconnects). The real bytes.Buffer+decodeData loop, convertToMessage and random byte strings are recorded call by call (gnet overlay) and TLC checks every record: delivered frames and remaining buffer per read, whole-stream delivery, dispatch verdicts, no panic, canonical re-encoding.",
          "convertToMessage is exercised with the overlay's own registered message type (daemon message codecs belong to C21/C25); the timing of a disconnect follows the code (decided once the prefix plus one byte are buffered); TLC/SANY/Json trusted.",
